@@ -43,6 +43,7 @@ fn main() {
                     "originops" => run_originops(&c, &mut o),
                     "threads" => run_threads(&c, &sb, &mut o),
                     "packrat" => run_packrat(&c, &mut o),
+                    "lex" => run_lex(&c, &mut o),
                     _ => panic!("unknown command"),
                 }
                 writeln!(o, "end").unwrap();
@@ -869,4 +870,31 @@ fn run_entry(ctx: &mut Ctx, defs: &Defines, l: &[String], o: &mut String) {
         _ => panic!("unknown entry {:?}", l),
     }
     let _ = Locate::default();
+}
+
+// ---------------------------------------------------------------------------------------
+// lex: the hand-written lexers (span primitives of the grammar) applied to a text (hook 5)
+//   lex <name> <hextext> <0|1 in_directive>
+fn run_lex(c: &Case, o: &mut String) {
+    for l in &c.lines {
+        if l[0] != "lex" {
+            panic!("lex: unknown line {:?}", l);
+        }
+        let name = l[1].clone();
+        let text = unhex_str(&l[2]);
+        let dir = l[3] == "1";
+        let r = std::panic::catch_unwind(|| sv_parser_parser::verif_lex(&name, &text, dir));
+        match r {
+            Err(e) => writeln!(o, "lex {} panic {}", l[1], hex(panic_msg(e).as_bytes())).unwrap(),
+            Ok(None) => writeln!(o, "lex {} unknown", l[1]).unwrap(),
+            Ok(Some(None)) => writeln!(o, "lex {} fail", l[1]).unwrap(),
+            Ok(Some(Some((n, off, len, line)))) => {
+                if off == usize::MAX {
+                    writeln!(o, "lex {} ok {} - - -", l[1], n).unwrap()
+                } else {
+                    writeln!(o, "lex {} ok {} {} {} {}", l[1], n, off, len, line).unwrap()
+                }
+            }
+        }
+    }
 }
